@@ -121,6 +121,16 @@ def build(spec: dict):
     extra = [ext_bytes(m, bytes.fromhex(p)) for m, p in spec.get("extensions", [])]
     exts = extra + known if spec.get("ext_order") == "after" else known + extra
     ext_blob = b"".join(exts) + ext_bytes(EXT_END, b"")
+    if spec.get("ext_end") in ("none", "fill-cluster") and exts:
+        # no end-of-extensions marker: the area ends where the backing file name begins, or (without a backing file) with the
+        # first cluster, which an unknown extension pads out exactly
+        ext_blob = b"".join(exts)
+        if not backing and spec["ext_end"] == "fill-cluster" and cs - hlen - len(ext_blob) >= 8:
+            padlen = cs - hlen - len(ext_blob) - 8
+            spec.setdefault("_pad_ext", [0x0BADF00D, padlen])
+            ext_blob += ext_bytes(0x0BADF00D, bytes((i * 5 + 1) & 0xFF for i in range(padlen)))
+        elif not backing:
+            ext_blob += ext_bytes(EXT_END, b"")
     pos = hlen + len(ext_blob)
     bf_off = bf_size = 0
     bname = b""
@@ -386,7 +396,8 @@ def build(spec: dict):
         "size": size, "cluster_size": cs, "l1_size": l1_size, "l1_table_offset": offsets["l1"], "version": version,
         "backing_name": backing["name"] if backing else None, "backing_format": backing.get("format") if backing else None,
         "data_file_name": spec.get("data_file_name", "data.raw") if use_df and spec.get("data_file_named", True) else None,
-        "extensions": [(m, bytes.fromhex(p)) for m, p in spec.get("extensions", [])],
+        "extensions": [(m, bytes.fromhex(p)) for m, p in spec.get("extensions", [])]
+        + ([(spec["_pad_ext"][0], bytes((i * 5 + 1) & 0xFF for i in range(spec["_pad_ext"][1])))] if spec.get("_pad_ext") else []),
         "snapshots": snap_meta, "header_length": hlen, "incompatible": incompat if version == 3 else 0,
         # header + extensions + backing name, L1 table(s), every L2 table, snapshot table (refcounts are not mapping metadata)
         "metadata_bytes": len(blob0) + l1_size * 8 + sum(snap_l1_size[i] * 8 for i in snap_l1) + n_l2 * cs + len(snaps) * 1200,
